@@ -24,6 +24,16 @@ func newEnv() *driver.Env {
 		root = r
 	}
 	if _, err := os.Stat(filepath.Join(root, "harness", "go.mod")); err != nil {
+		// not started from the root: the binary lives in <root>/bin
+		if exe, e2 := os.Executable(); e2 == nil {
+			if r := filepath.Dir(filepath.Dir(exe)); r != root {
+				if _, e3 := os.Stat(filepath.Join(r, "harness", "go.mod")); e3 == nil {
+					root = r
+				}
+			}
+		}
+	}
+	if _, err := os.Stat(filepath.Join(root, "harness", "go.mod")); err != nil {
 		fmt.Fprintf(os.Stderr, "verif: %s does not look like the /verif root (run from /verif or set VERIF_ROOT)\n", root)
 		os.Exit(2)
 	}
